@@ -8,7 +8,7 @@ PRELUDE = programs.PRELUDE + "impl Marker for ::unimock::Unimock {}\n"
 def render(case, c, seed):
     p = dict(c["prog"])
     is_trait = p["mode"] == "trait"
-    pr = programs.Prog(case, {**{k: v for k, v in p.items() if k not in ("stamp", "cfg")}, "opt": "mock", "mode": ("fn" if is_trait else p["mode"])}, c["leaves"], seed)
+    pr = programs.Prog(case, {**{k: v for k, v in p.items() if k not in ("stamp", "cfg", "featoff", "viafeat")}, "opt": "mock", "mode": ("fn" if is_trait else p["mode"])}, c["leaves"], seed)
     is_async = p["async"]
     nparams = len(p["params"])
     if is_trait:
@@ -22,6 +22,9 @@ def render(case, c, seed):
         item = f"#[::entrait::entrait_export(mock_api = Mk, unimock)]\npub trait T {{\n{methods}\n}}\n"
     else:
         item = pr.item_text()
+        if p.get("viafeat"):
+            assert "::entrait::entrait(pub T, mock_api = Mk, unimock, export" in item
+            item = item.replace("::entrait::entrait(pub T, mock_api = Mk, unimock, export", "::entrait::entrait_export(pub T, mock_api = Mk, export = true", 1)
         if p.get("cfg"):
             # every function of the module is guarded by an enabled cfg
             import re
